@@ -156,12 +156,49 @@ SET_METHODS = {"difference", "union", "intersection", "symmetric_difference", "c
 SET_QUERIES = {"issubset", "issuperset", "isdisjoint", "add", "update", "discard", "remove", "difference_update",
                "intersection_update", "__contains__"}
 
-# order-sensitive uses of a set that are harmless, confirmed by reading (one line of reason each)
-R3_ALLOW = {
-    "BootstrapElectionModel._extrapolate_unit_margin|missing_columns":
-        "used as the same column selector on both sides of one assignment; the frame is re-ordered by "
-        "versioned_data_handler.data.columns on the next statement",
-}
+def _label_only_selector(f, uses):
+    """Structural allowance (replaces a name-keyed allow-list): an ordered copy of a set may be used as a *column selector*
+    when (a) every order-sensitive use is the whole key of `A[L]` / `B[L]` inside one assignment `A[L] = <expr over B[L]>`
+    whose right-hand side reduces B[L] column-wise (label-aligned), and (b) the assigned frame A is afterwards only ever
+    addressed by label (`A[key]`, `A[key] = ..`), never positionally or as a whole.  Then only A's column *order* depends
+    on the set order, and no consumer can observe column order.  Returns a reason string or None."""
+    subs = [u for u, why in uses if isinstance(u, ast.Subscript)]
+    if len(subs) != len(uses) or not subs:
+        return None
+    stmts = {id(util.enclosing_stmt(u)): util.enclosing_stmt(u) for u in subs}
+    if len(stmts) != 1:
+        return None
+    st = next(iter(stmts.values()))
+    if not (isinstance(st, ast.Assign) and len(st.targets) == 1 and isinstance(st.targets[0], ast.Subscript)
+            and st.targets[0] in subs and isinstance(st.targets[0].value, ast.Name)):
+        return None
+    sel = ast.dump(st.targets[0].slice)
+    if any(ast.dump(u.slice) != sel for u in subs):
+        return None
+    rhs_subs = [u for u in subs if u is not st.targets[0]]
+    # right-hand side: B[L].<column-wise reducer>() -> label-indexed result, aligned by label on assignment
+    for u in rhs_subs:
+        par = getattr(u, "_parent", None)
+        call = getattr(par, "_parent", None)
+        if not (isinstance(par, ast.Attribute) and par.attr in ("max", "min", "sum", "mean", "first", "last") and isinstance(call, ast.Call)
+                and not call.args and call is st.value):
+            return None
+    frame = st.targets[0].value.id
+    for nm in util.own_nodes(f, ast.Name):
+        if nm.id != frame:
+            continue
+        par = getattr(nm, "_parent", None)
+        if isinstance(nm.ctx, ast.Store) and isinstance(par, ast.Assign):
+            continue
+        if isinstance(par, ast.Subscript) and par.value is nm:
+            continue
+        if isinstance(par, ast.Attribute) and par.attr == "columns":
+            g = getattr(par, "_parent", None)
+            if isinstance(g, ast.Call) and isinstance(g.func, ast.Name) and g.func.id in ("set", "frozenset"):
+                continue
+        return None
+    return ("used only as the same column selector on both sides of one label-aligned assignment; the assigned frame is "
+            "afterwards addressed by label only, so its column order is never observed")
 
 
 def _is_set_expr(n):
@@ -390,13 +427,7 @@ def check(ctx):
             nsets += 1
             uses = []
             _order_uses(f, n, uses)
-            tg = None
-            if isinstance(p, ast.Assign) and isinstance(p.targets[0], ast.Name):
-                tg = p.targets[0].id
-            if isinstance(p, ast.Call) and isinstance(getattr(p, "_parent", None), ast.Assign):
-                a = p._parent.targets[0]
-                tg = a.id if isinstance(a, ast.Name) else None
-            allow = R3_ALLOW.get(f"{f.qualname}|{tg}") if tg else None
+            allow = _label_only_selector(f, uses) if uses else None
             if uses and allow:
                 ctx.ob("C12.R3.set-order", util.key(f, n), True, f.where(n), f"order-sensitive use allowed: {allow}")
             elif uses:
